@@ -25,7 +25,10 @@ def _cli(job):
     f, args = job
     try:
         p = subprocess.run(vlib.vsg_cmd() + ["-f", f] + args, env=vlib.repo_env(), stdout=subprocess.PIPE, stderr=subprocess.PIPE, text=True, timeout=600)
-        return f, p.returncode, p.stdout[-400:], p.stderr[-1500:], False
+        se = p.stderr
+        if "Traceback (most recent call last)" in se and len(se) > 3000:
+            se = "Traceback (most recent call last) [...]\n" + se[-2500:]
+        return f, p.returncode, p.stdout[-400:], se, False
     except subprocess.TimeoutExpired:
         return f, None, "", "", True
 
@@ -69,6 +72,46 @@ def extra(ck, data, rules, docg):
             if p.returncode != 1 or "File:  " + good not in p.stdout:
                 ck.violation("rejected-file-stops-batch", "after a rejected file the next file was not processed (exit %d)" % p.returncode, {"kind": "input", "text": open(bad).read()})
         ck.cov["malformed"] = {"variants": len(jobs), "rejected_with_message": rejected}
+        # option combinations of the command line and configuration sections that the fixtures never combine:
+        # every --fix_phase (the check that follows starts from a partly fixed model), --stdin with --fix,
+        # a configuration error with --junit, partial pragma pattern sections
+        tabby = [f for f in corpus.files() if "test_input.vhd" in f and os.path.getsize(f) < 6000]
+        import re as _re
+
+        def tab_rank(f):
+            t = open(f, errors="replace").read()
+            return (0 if _re.search(r"(?m)^--[^\n]*\t", t) else 1 if _re.search(r"--[^\n]*\t", t) else 2 if "\t" in t else 3, f)
+
+        tabby = sorted(tabby, key=tab_rank)
+        pick = tabby[:8] + r.sample(tabby[8:], 10 if ck.tier == "thorough" else 4)
+        jobs2 = []
+        for i, s in enumerate(pick):
+            for fp in (1, 2, 3, 4, 5, 6):
+                f = os.path.join(tmp, "p%d_%d.vhd" % (i, fp))
+                shutil.copy(s, f)
+                jobs2.append((f, ["--fix", "-fp", str(fp), "-p", "1"]))
+        cfg_bad = os.path.join(tmp, "bad.yaml")
+        open(cfg_bad, "w").write("rule:\n  no_such_rule_001:\n    disable: true\n")
+        cfg_pr = os.path.join(tmp, "pr.yaml")
+        open(cfg_pr, "w").write("pragma:\n  patterns:\n    single:\n      - '^\\s*--\\s+foo\\s*$'\n")
+        g2 = os.path.join(tmp, "good2.vhd")
+        open(g2, "w").write("-- a comment line\nentity e is\nend entity e;\n")
+        jobs2.append((good, ["-c", cfg_bad, "--junit", os.path.join(tmp, "j.xml"), "-p", "1"]))
+        jobs2.append((g2, ["-c", cfg_pr, "-p", "1"]))
+        with Pool(vlib.NCPU) as p:
+            res2 = p.map(_cli, jobs2)
+        for (f, rc, so, se, hung), (_, args) in zip(res2, jobs2):
+            if hung:
+                ck.violation("hang:cli-options", "vsg %s did not terminate within 600 s" % " ".join(args[:3]), {"kind": "input", "args": args[:4], "text": open(f).read()})
+            elif "Traceback (most recent call last)" in se:
+                last = [l for l in se.strip().split("\n") if l.strip()][-1]
+                site = [l.strip() for l in se.split("\n") if l.strip().startswith("File ")][-1:]
+                where = (site[0].split(",")[0].split("/")[-1].rstrip('"') + ":" + site[0].split("line ")[1].split(",")[0]) if site else "?"
+                ck.violation("traceback:cli-options:%s:%s" % (last.split(":")[0], where), "vsg %s ends in a traceback: %s" % (" ".join(a if not a.startswith(tmp) else os.path.basename(a) for a in args), last[:200]), {"kind": "input", "args": [a if not a.startswith(tmp) else os.path.basename(a) for a in args], "text": open(f).read()})
+        p = subprocess.run(vlib.vsg_cmd() + ["--stdin", "--fix"], input="entity E is\nend entity E;\n", env=vlib.repo_env(), stdout=subprocess.PIPE, stderr=subprocess.PIPE, text=True, timeout=600)
+        if "Traceback (most recent call last)" in p.stderr:
+            ck.violation("traceback:stdin-fix", "vsg --stdin --fix ends in a traceback: %s" % p.stderr.strip().split("\n")[-1][:200], {"kind": "input", "args": ["--stdin", "--fix"]})
+        ck.cov["cli_option_runs"] = len(jobs2) + 1
     finally:
         shutil.rmtree(tmp, ignore_errors=True)
 
